@@ -5,7 +5,7 @@
    requests:
      pre <mode> <tx> <sign_id> <hash_type> <leg|sw|p2sh>   -> "<preimage hex>" | ERR
            (Transaction.signature / signature_hash; <mode> only matters to the implementation adapter)
-     preu ... same with the pre-repair comparison in signature_segwit (diagnostics)
+     preu ... same for the code before fixes/C01-1 and C01-2 (diagnostics)
      signed <tx>                                            -> digest of every input as Transaction.sign computes it
      vdig <tx> <pos> <hash_type>                            -> digest Transaction.verify asks for (sign_id = index_n)
      spec <tx> <i> <hash_type>                              -> consensus preimage + digest *)
@@ -67,17 +67,17 @@ let pre_ans = function
 
 let dispatch = function
   | ["pre"; _; tx; sid; ht; wt] ->
-      pre_ans (lib_signature sha256d hash160 (tx_of_tok tx) (z_of sid) (z_of ht) (wt_of wt))
+      pre_ans (lib_signature_at sha256d hash160 true (tx_of_tok tx) (z_of sid) (z_of ht) (wt_of wt))
   | ["preu"; _; tx; sid; ht; wt] ->
       let t = tx_of_tok tx in
       (match wt_of wt with
-       | WT_legacy -> pre_ans (lib_legacy_preimage hash160 t (z_of sid) (z_of ht))
+       | WT_legacy -> pre_ans (lib_legacy_preimage_at hash160 false t (z_of sid) (z_of ht))
        | _ -> pre_ans (lib_bip143_preimage_at sha256d hash160 false t (nat_of_int (int_of_string sid)) (z_of ht)))
   | ["signed"; tx] ->
       let t = tx_of_tok tx in
-      String.concat "," (List.mapi (fun p _ -> opt hex_of_bytes (lib_digest sha256d hash160 t (nat_of_int p) BZ.one)) t.st_ins)
+      String.concat "," (List.mapi (fun p _ -> opt hex_of_bytes (lib_digest_at sha256d hash160 true t (nat_of_int p) BZ.one)) t.st_ins)
   | ["vdig"; tx; p; ht] ->
-      opt hex_of_bytes (lib_verify_digest sha256d hash160 (tx_of_tok tx) (nat_of_int (int_of_string p)) (z_of ht))
+      opt hex_of_bytes (lib_verify_digest_at sha256d hash160 true (tx_of_tok tx) (nat_of_int (int_of_string p)) (z_of ht))
   | ["spec"; tx; i; ht] ->
       let t = tx_of_tok tx in
       let n = nat_of_int (int_of_string i) in
